@@ -81,8 +81,8 @@ def run(ctx):
 
     # (ii) differential run on SQLite
     # systematic: every sequence of up to 3 (thorough: 4, sampled) transform kinds around windowed derives, seed-independent
-    syskinds = ["sort", "select", "filter", "derive", "take", "window", "join", "group_agg"]
-    syscases = [c for c in relgen.systematic_cases(3 if quick else 4, SAFE, seed=44, sample=(random.Random(44), 512 if quick else 2500), kinds=syskinds)
+    syskinds = ["sort", "select", "filter", "derive", "take", "window", "join", "group_agg", "distinct"]
+    syscases = [c for c in relgen.systematic_cases(3 if quick else 4, SAFE, seed=44, sample=(random.Random(44), 729 if quick else 2500), kinds=syskinds)
                 if "window" in c.seq]
     syscases += relgen.inherited_order_cases(SAFE, variants=3 if quick else 6)
     ctx.coverage_extra["systematic_window_sequences"] = len(syscases)
